@@ -499,6 +499,15 @@ pub fn corpus() -> Vec<(&'static str, Prog)> {
         b.tasks[1] = vec![Op::Park, Op::Park, Op::FetchAdd(a, 10)];
         v.push((if joined { "single-unpark-double-park-joined" } else { "single-unpark-double-park" }, b.finish(joined)));
     }
+    // zero-permit requests: immediate unless (fair mode) somebody is queued ahead
+    for fair in [true, false] {
+        let mut b = B::new(3);
+        let s = b.obj(Obj::Sem { permits: 1, fair });
+        b.tasks[0] = vec![Op::Acquire(s, 0), Op::TryAcquire(s, 0), Op::Release(s, 0), Op::Avail(s)];
+        b.tasks[1] = vec![Op::Acquire(s, 2), Op::Release(s, 2)];
+        b.tasks[2] = vec![Op::Acquire(s, 0), Op::Release(s, 1), Op::TryAcquire(s, 0)];
+        v.push((if fair { "zero-permit-requests-fair" } else { "zero-permit-requests-unfair" }, b.finish(true)));
+    }
     // reused barrier with more tasks than n
     {
         let mut b = B::new(4);
